@@ -16,6 +16,14 @@ import (
 
 const Root = "/verif"
 
+// OutRoot is where evidence and replay files go (VERIF_OUT is used by the mutation self-test only).
+func OutRoot() string {
+	if d := os.Getenv("VERIF_OUT"); d != "" {
+		return d
+	}
+	return Root
+}
+
 type Run struct {
 	Prop   string
 	Tier   string // quick | thorough
@@ -138,9 +146,9 @@ type Evidence struct {
 
 func (r *Run) WriteEvidence(level string, cov map[string]interface{}, assumptions []string, violations int) {
 	ev := Evidence{PropertyID: r.Prop, Tier: r.Tier, Seed: r.Seed, Level: level, Coverage: cov, Assumptions: assumptions, WallS: time.Since(r.Start).Seconds(), Violations: violations}
-	os.MkdirAll(filepath.Join(Root, "evidence"), 0o755)
+	os.MkdirAll(filepath.Join(OutRoot(), "evidence"), 0o755)
 	b, _ := json.MarshalIndent(ev, "", " ")
-	os.WriteFile(filepath.Join(Root, "evidence", r.Prop+".json"), append(b, '\n'), 0o644)
+	os.WriteFile(filepath.Join(OutRoot(), "evidence", r.Prop+".json"), append(b, '\n'), 0o644)
 }
 
 // ---------------------------------------------------------------- verdict
@@ -213,7 +221,7 @@ func taintSuffix(t string) string {
 
 // ReplayPath returns /verif/replays/<prop>/<name>.json (directory created).
 func ReplayPath(prop, name string) string {
-	d := filepath.Join(Root, "replays", prop)
+	d := filepath.Join(OutRoot(), "replays", prop)
 	os.MkdirAll(d, 0o755)
 	return filepath.Join(d, name+".json")
 }
